@@ -1825,6 +1825,14 @@ The what argument tells us what sort of state is expected (allowed values are de
         if productRoot is None:
             productRoot = self.root
 
+        if fwd and recursionDepth == 0:
+            #
+            # A new request.  Which products an earlier request on this Eups object setup (and why) must not
+            # influence how the top-level product is resolved: start, as a fresh Eups does, with an empty table.
+            # It is filled from the environment below, once the top-level product is known
+            #
+            self.alreadySetupProducts = {}
+
         #
         # Look for product directory
         #
